@@ -86,6 +86,12 @@ Definition peek_group (d : delim) (ts : list ttree) : bool :=
 Definition peek_ident (s : string) (ts : list ttree) : bool :=
   match ts with TTIdent s' _ :: _ => String.eqb s s' | _ => false end.
 
+(* set.rs peek_rest: `..` is the rest marker of a set pattern only when it stands alone (followed by
+   `,` or by the end of the group); `..5` and `..=5` are range patterns *)
+Definition peek_rest (ts : list ttree) : bool :=
+  peek_punct ".." ts && negb (peek_punct "..=" ts) &&
+  match skipn 2 ts with [] => true | r => peek_punct "," r end.
+
 (* syn::Ident refuses keywords and `_` *)
 Definition keywords : list string :=
   ["_"; "abstract"; "as"; "async"; "await"; "become"; "box"; "break"; "const"; "continue"; "crate"; "do";
@@ -617,7 +623,7 @@ Section Parser.
       e <- is_empty ;;
       if e then ret ([], false)
       else
-        d <- peek (peek_punct "..") ;;
+        d <- peek peek_rest ;;
         if d then
           p_punct ".." ;;;
           c <- peek (peek_punct ",") ;;
@@ -629,7 +635,7 @@ Section Parser.
           if e2 then ret ([p], false)
           else
             p_punct "," ;;;
-            d2 <- peek (peek_punct "..") ;;
+            d2 <- peek peek_rest ;;
             if d2 then p_punct ".." ;;; ret ([p], true)
             else more <- p_set_elems f ;; ret (p :: fst more, snd more)
     end
